@@ -483,7 +483,8 @@ def property_on_impl(case, base, rng):
                 bad.append(("all-equal-not-constant", f"all thetas equal: log_prob {base} but ConstantCoalescent gives {v}"))
         if model == "exponential" and case["mode"] in MODES["pwexp"]:
             v = impl_dist(case, model="pwexp", grid=[])
-            if not all(fclose(a, b) for a, b in zip(base, v)):
+            # rows with growth exactly 0 are each class's own (known) defect, reported on its own cases
+            if not all(fclose(a, b) for r, (a, b) in enumerate(zip(base, v)) if row_inputs(case, r)[2][0] != 0):
                 bad.append(("same-N-differs", f"ExponentialCoalescent {base} vs one-piece PiecewiseExponentialCoalescentGrid {v}"))
         if model == "skygrid":
             # a grid refined by extra points carrying the same theta on both sides describes the same N(t)
@@ -518,7 +519,7 @@ def run(tier, seed, replay=None):
         "exp/log/sum (compared under relative 1e-9); batched evaluation = map over rows (checked by "
         "correspondence, not proved)"]
     rng = random.Random(seed)
-    ncases = 420 if tier == "quick" else 4200
+    ncases = 330 if tier == "quick" else 4200
     cases = corpus() + [gen_case(rng, i, tier) for i in range(ncases)]
     if replay:
         cases = [json.load(open(replay))["replay"]["case"]]
